@@ -446,6 +446,10 @@ func (ex *Exec) load(st *State, p *PtrV) Term {
 		}
 		v, _ := ex.loadPath(ex.term(st, root), p.Root, p.Path)
 		return v
+	case p.Global != nil && p.GArr:
+		arr := ex.globalVal(st, p.Global)
+		v, _ := ex.loadPath(sel(arr, p.Idx, ex.w.sortOf(p.Root, ex.d)), p.Root, p.Path)
+		return v
 	case p.Global != nil:
 		root := ex.globalVal(st, p.Global)
 		v, _ := ex.loadPath(root, p.Root, p.Path)
@@ -480,7 +484,33 @@ func (ex *Exec) loadField(st *State, base Term, root types.Type, i int) Term {
 	ft := structOf(root).Field(i).Type()
 	fs := ex.w.sortOf(ft, ex.d)
 	h := ex.heap(st, ex.fieldHeapName(root, i), arraySort(SInt, fs))
+	ex.entryClosed(st, ex.fieldHeapName(root, i), fs, ft)
 	return sel(h, base, fs)
+}
+
+// entryClosed states, once per field heap, that the heap the function under verification starts
+// in is closed: a reference stored in an object that exists at entry designates an object that
+// exists at entry (the allocation watermark alloc@0 is above everything allocated so far).
+func (ex *Exec) entryClosed(st *State, name, fs string, ft types.Type) {
+	if ex.d.axseen["entryclosed:"+name] || os.Getenv("GOVC_NO_ENTRYCLOSED") != "" {
+		return
+	}
+	switch types.Unalias(ft).Underlying().(type) {
+	case *types.Pointer, *types.Map, *types.Slice:
+	case *types.Struct:
+		if !ex.isModelStruct(ft) {
+			return
+		}
+	default:
+		return
+	}
+	h0 := ex.heapConst(name, arraySort(SInt, fs), 0, 0)
+	tmp := &State{alloc: st.alloc0, alloc0: st.alloc0}
+	ex.assumeTypeFacts(tmp, ft, mk(fs, "(select "+h0.S+" r)"))
+	if len(tmp.pc) == 0 {
+		return
+	}
+	ex.d.axiom("entryclosed:"+name, fmt.Sprintf("(assert (forall ((r Int)) (! (=> (and (< 0 r) (< r %s)) %s) :pattern ((select %s r)))))", st.alloc0.S, and(tmp.pc...).S, h0.S))
 }
 
 func (ex *Exec) storeField(st *State, base Term, root types.Type, i int, v Term) {
@@ -512,6 +542,8 @@ func (ex *Exec) store(st *State, p *PtrV, v Term, site ssa.Instruction) {
 		root := ex.term(st, fr.cells[p.Cell])
 		fr.cells[p.Cell] = ex.storePath(root, p.Root, p.Path, v)
 		return
+	case p.Global != nil && p.GArr:
+		ex.unsupportedf("store to an element of the package-level array %s", p.Global.Name())
 	case p.Global != nil:
 		ex.frameWrite(st, site, "global "+p.Global.Name(), tFalse)
 		ex.captureWrite(st, site, "package-level variable "+p.Global.Name())
@@ -842,6 +874,9 @@ func (ex *Exec) runDefers(st *State, b *ssa.BasicBlock, idx int) bool {
 func (ex *Exec) doPanic(st *State, in *ssa.Panic) {
 	v := ex.term(st, ex.val(st, in.X))
 	allowed := tFalse
+	if st.panicOK["any"] {
+		allowed = tTrue // `panics any`: a value made by code outside the contracts is re-raised as is
+	}
 	for name := range st.panicOK {
 		if t := ex.w.lookupType(name); t != nil {
 			allowed = or(allowed, eq(app(SInt, "typeof", v), intLit(int64(ex.w.typeID(t, ex.d)))))
@@ -925,6 +960,11 @@ func (ex *Exec) step(st *State, in ssa.Instruction) {
 		case *types.Pointer:
 			at, ok := types.Unalias(t.Elem()).Underlying().(*types.Array)
 			p, isP := ex.val(st, in.X).(*PtrV)
+			if ok && isP && p.Global != nil && !p.GArr && len(p.Path) == 0 {
+				ex.oblige(st, "bounds", "", in, and(le(intLit(0), idx), lt(idx, intLit(at.Len()))), "array index in range")
+				fr.env[in] = &PtrV{Global: p.Global, GArr: true, Idx: idx, Root: at.Elem()}
+				return
+			}
 			if !ok || !isP || p.Cell != nil || len(p.Path) > 0 || p.IsElem {
 				ex.unsupportedf("IndexAddr on %s", in.X.Type())
 			}
@@ -1215,6 +1255,11 @@ func (ex *Exec) assumeLoaded(st *State, t types.Type, v Term) {
 	switch types.Unalias(t).Underlying().(type) {
 	case *types.Basic, *types.Slice, *types.Pointer, *types.Map:
 		if len(v.S) < 400 {
+			ex.assumeTypeFacts(st, t, v)
+		}
+	case *types.Struct:
+		// a struct value read from memory: the references nested in it were allocated earlier
+		if len(v.S) < 200 && ex.isModelStruct(t) && os.Getenv("GOVC_NO_STRUCTFACTS") == "" {
 			ex.assumeTypeFacts(st, t, v)
 		}
 	}
